@@ -36,8 +36,14 @@ func (in *Interp) materializeBlob(s *SliceVal) {
 }
 
 func (in *Interp) blobLen(s SliceVal) int {
-	if m, ok := s.Ext.(*sigMarker); ok {
-		return 1 + 2*len(m.signers) + m.nExtra
+	if p, ok := s.Ext.(*extPart); ok {
+		if p.kind == "salt" {
+			return 10 // decimal unix seconds
+		}
+		if p.m.rcde[p.idx] {
+			return 65
+		}
+		return 64
 	}
 	// an encoding is never empty; the exact length is not modelled
 	return 2
